@@ -366,7 +366,13 @@ def variable_part(run, rng, finds, quick):
             if kind in ("leb", "sleb"):
                 n = rng.getrandbits(rng.choice([3, 7, 8, 14, 21, 33, 60]))
                 if kind == "sleb":
-                    n = n - (1 << 30) if rng.random() < 0.5 else n
+                    c = rng.random()
+                    if c < 0.35:
+                        n = -n - 1
+                    elif c < 0.6:
+                        # boundaries of the 7-bit groups: -64/-65, 63/64, -8192/-8193, 8191/8192, ...
+                        j = rng.choice([1, 2, 3, 4, 5, 8])
+                        n = rng.choice([-1, 1]) * (1 << (7 * j - 1)) + rng.choice([-2, -1, 0, 1])
                     enc = write_sleb128(n)
                     val, ln = read_leb128(enc + b"\x55\xaa", -1)
                 else:
